@@ -26,10 +26,14 @@ def _module_constants(tree):
                 stores[x] = stores.get(x, 0) + 5
     out = {}
     for st in tree.body:
-        if isinstance(st, ast.Assign) and len(st.targets) == 1 and isinstance(st.targets[0], ast.Name) \
-                and isinstance(st.value, ast.Constant) and isinstance(st.value.value, (str, int, float)) \
-                and not isinstance(st.value.value, bool) and stores.get(st.targets[0].id) == 1:
-            out[st.targets[0].id] = st.value
+        tgt = val = None
+        if isinstance(st, ast.Assign) and len(st.targets) == 1 and isinstance(st.targets[0], ast.Name):
+            tgt, val = st.targets[0].id, st.value
+        elif isinstance(st, ast.AnnAssign) and isinstance(st.target, ast.Name) and st.value is not None:
+            tgt, val = st.target.id, st.value            # TIMESTEP: int = 1
+        if tgt and isinstance(val, ast.Constant) and isinstance(val.value, (str, int, float)) \
+                and not isinstance(val.value, bool) and stores.get(tgt) == 1:
+            out[tgt] = val
     return out
 
 
